@@ -414,71 +414,59 @@ def r3_check_then_commit(rep, src, A):
                  % (bad[0].outcome[2].lineno, e[1], bad[0].describe()[:200]), where='%s:%d' % (f.module.relpath, e[3].lineno))
     else:
         rep.ok('C14.R3', f.site, 'no raise after first store', '%d storing paths, %d raising paths, no raising path stores' % (len(storing), len(raising)))
-    # rollback in __setattr__
+    # rollback in __setattr__, by interpretation (helpers followed): for each component, an assignment whose recomposition is
+    # refused (the first _update_full_version() raises ValueError) ends in ValueError with the object exactly as it was and the
+    # full version recomposed again from the restored components; an accepted one stores str(value) and recomposes once
+    from .. import heap as H
     f2 = src.func(SITE + '.__setattr__')
     rep.saw_func(f2)
-    tries = [n for n in walk_no_nested(f2.node) if isinstance(n, ast.Try)]
-    cands = []
-    for t in tries:
-        if any(isinstance(c, ast.Call) and norm(c.func) == 'self._update_full_version' for s in t.body for c in ast.walk(s)):
-            cands.append(t)
-    if len(cands) != 1:
-        raise AnalysisError('%s: expected exactly one try around _update_full_version(), found %d' % (f2.site, len(cands)))
-    t = cands[0]
-    # statements of the enclosing block before the try
-    block = t._parent.body if t in getattr(t._parent, 'body', []) else t._parent.orelse
-    before = block[:block.index(t)]
-    mut = None      # setattr(self, X, value)
-    saved = {}      # name -> (attr expr text)
-    for st in before:
-        for c in ast.walk(st):
-            if isinstance(c, ast.Call) and norm(c.func) == 'setattr' and len(c.args) == 3 and norm(c.args[0]) == 'self':
-                if mut is None:
-                    mut = (norm(c.args[1]), st)
-        if isinstance(st, ast.Assign) and len(st.targets) == 1 and isinstance(st.targets[0], ast.Name) \
-                and isinstance(st.value, ast.Call) and norm(st.value.func) == 'getattr' and len(st.value.args) >= 2 \
-                and norm(st.value.args[0]) == 'self' and mut is None:
-            saved[st.targets[0].id] = norm(st.value.args[1])
-    if mut is None:
-        raise AnalysisError('%s: no setattr(self, <private>, value) before the try' % f2.site)
-    ok_handler = False
-    why = 'no except ValueError handler'
-    for h in t.handlers:
-        if h.type is not None and 'ValueError' not in norm(h.type) and norm(h.type) not in ('Exception', 'BaseException'):
-            continue
-        restored = False
-        ends_in_raise = False
-        for st in h.body:
-            for c in ast.walk(st):
-                if isinstance(c, ast.Call) and norm(c.func) == 'setattr' and len(c.args) == 3 and norm(c.args[0]) == 'self' \
-                        and norm(c.args[1]) == mut[0] and isinstance(c.args[2], ast.Name) and saved.get(c.args[2].id) == mut[0]:
-                    restored = True
-            if isinstance(st, ast.Raise):
-                ends_in_raise = True
-                if not restored:
-                    why = 'the handler raises before restoring the saved value'
-                break
-        if restored and ends_in_raise:
-            exc = h.body[-1].exc if isinstance(h.body[-1], ast.Raise) else None
-            for st in h.body:
-                if isinstance(st, ast.Raise):
-                    exc = st.exc
-            if exc is None or 'ValueError' in norm(exc):
-                ok_handler = True
+    mod = src.mod('debian_support')
+    comps = {'epoch': '_BaseVersion__epoch', 'upstream_version': '_BaseVersion__upstream_version', 'debian_revision': '_BaseVersion__debian_revision',
+             'debian_version': '_BaseVersion__debian_revision'}
+    why = None
+    n_cases = 0
+    for attr, private in comps.items():
+        for fail_first in (True, False):
+            calls = []
+
+            def upd(it, args, kw, calls=calls, fail_first=fail_first):
+                calls.append({k: v for k, v in it.h.objs[args[0].name].items() if k.startswith('_BaseVersion__')})
+                if fail_first and len(calls) == 1:
+                    raise H.Raised('ValueError', it.h.version, 0)
+                return None
+            heap = H.Heap(mod, hooks={'._update_full_version': upd})
+            me = heap.alloc('BaseVersion', {'_BaseVersion__epoch': '1', '_BaseVersion__upstream_version': '2.0', '_BaseVersion__debian_revision': '3',
+                                            '_BaseVersion__full_version': '1:2.0-3'}, name='@version')
+            before = dict(heap.objs[me.name])
+            n_cases += 1
+            try:
+                H.Interp(heap).call(H.Closure(f2.node, {}, me, f2.cls), [attr, 9])
+                out = 'ok'
+            except H.Raised as x:
+                out = x.exc
+            after = dict(heap.objs[me.name])
+            if fail_first:
+                if out != 'ValueError':
+                    why = why or 'assigning %s a value whose recomposition is refused ends in %s instead of ValueError' % (attr, 'success' if out == 'ok' else out)
+                elif after != before:
+                    diff = sorted(k for k in after if after.get(k) != before.get(k))
+                    why = why or 'after the refused assignment of %s the object keeps %s = %r (it was %r): the component is not rolled back' % (
+                        attr, diff[0], after.get(diff[0]), before.get(diff[0]))
+                elif len(calls) < 2 or calls[-1].get(private) != before[private]:
+                    why = why or 'after restoring %s the full version is not recomposed from the restored components' % attr
             else:
-                why = 'the handler raises %s instead of ValueError' % norm(exc)[:40]
-        elif not restored:
-            why = 'the handler does not restore %s from the value saved before the assignment' % mut[0]
-        elif not ends_in_raise:
-            why = 'the handler swallows the error'
-    if ok_handler:
-        rep.ok('C14.R3', f2.site, 'rollback restores saved value', 'old = getattr(self, %s) … except ValueError: setattr(self, %s, old); raise ValueError'
-               % (mut[0], mut[0]))
+                want = dict(before)
+                want[private] = '9'
+                if out != 'ok' or after != want:
+                    why = why or 'an accepted assignment of %s = 9 leaves %r' % (attr, {k: v for k, v in after.items() if k.startswith('_BaseVersion__')})
+                elif len(calls) != 1 or calls[0].get(private) != '9':
+                    why = why or 'the full version is not recomposed after %s has been stored' % attr
+    if why is None:
+        rep.ok('C14.R3', f2.site, 'rollback restores saved value', '%d interpreted assignments: refused → ValueError and unchanged object, accepted → str(value) stored, recomposed once' % n_cases)
     else:
-        rep.fail('C14.R3', f2.site, 'rollback restores saved value', 'component assignment is not rolled back on failure: ' + why,
-                 where='%s:%d' % (f2.module.relpath, t.lineno))
+        rep.fail('C14.R3', f2.site, 'rollback restores saved value', 'component assignment is not rolled back on failure: ' + why, where=f2.where)
     # the full_version route goes through _set_full_version (validated) and nothing else stores it
-    routed = any(isinstance(c, ast.Call) and norm(c.func) == 'self._set_full_version' for c in ast.walk(f2.node))
+    routed = any(isinstance(c, ast.Call) and norm(c.func) == 'self._set_full_version' for c in ast.walk(normalize.inline_helpers(f2, depth=2, skip=('_set_full_version',))[0]))
     if routed:
         rep.ok('C14.R3', f2.site, 'full_version assignment is validated', 'routed through _set_full_version', nontrivial=False)
     else:
